@@ -30,10 +30,10 @@ def harness_inputs(trace):
     for fn, lhs, val in trace:
         if lhs is None:
             continue
-        if fn == 'harness' or lhs.startswith('g_'):
+        if fn == 'harness' or lhs.startswith('g_') or lhs.startswith('G2.'):
             iv = parse_int(val)
             if iv is not None and not lhs.startswith('__'):
-                if fn == 'harness' or lhs not in vals:
+                if fn == 'harness' or lhs not in vals or lhs.startswith('G2.'):
                     vals[lhs] = iv
     return vals
 
@@ -110,11 +110,14 @@ def run_native(verif, fam, unit_id, inputs):
 def make_replay(verif, pid, r, oid):
     u = r.unit
     uid = u.id + (('@' + r.variant) if r.variant else '')
-    trace, err = driver.get_trace(u, r.gb, oid, timeout=max(300, u.timeout))
+    if oid.endswith('.reachability.normal_return'):
+        trace, err = [], 'no execution of the unit reaches the normal exit (canary assertion proved unreachable)'
+    else:
+        trace, err = driver.get_trace(u, r.gb, oid, timeout=max(300, u.timeout))
     inputs = harness_inputs(trace)
     fam = family_of(u.id)
     native = None
-    if fam and (inputs or fam.get('src') in ('replay_bt.cpp', 'replay_fp.cpp', 'replay_c16.cpp', 'replay_gz.cpp')):
+    if fam and (inputs or oid.endswith('.reachability.normal_return') or fam.get('src') in ('replay_bt.cpp', 'replay_fp.cpp', 'replay_c16.cpp', 'replay_gz.cpp')):
         native = run_native(verif, fam, u.id, inputs)
     confirmed = bool(native and native.get('ran') and native.get('misbehaves'))
     fn = re.sub(r'[^A-Za-z0-9_.@-]', '_', '%s-%s-%s.json' % (pid, uid, oid))
@@ -351,3 +354,19 @@ FAMILIES['r.FilePreamble'] = {'name': 'fp', 'src': 'replay_fp.cpp', 'argv': lamb
 FAMILIES['out.gzip.write_gzip'] = {'name': 'gz', 'src': 'replay_gz.cpp', 'argv': lambda u, i: [max(i.get('a_in', 0), 32 << 20)]}
 
 FAMILIES['out.gzip.rotate_output.c16'] = {'name': 'c16', 'src': 'replay_c16.cpp', 'argv': lambda u, i: []}
+
+
+def dec2_argv(unit_id, inp):
+    """structure-level counterexample -> bytes: the first head of the activation, a stop code two bytes later if the head opens an indefinite container"""
+    op = unit_id[len('dec2.'):].split('.')[0]
+    h0 = inp.get('G2.h0', inp.get('g_h0', 0)) & 0xff
+    if op == 'read_string':
+        t = inp.get('a_ct', 0x40) & 0xe0
+        # a well-formed chunked string of the requested type: two one-byte chunks and the stop code
+        return ['read_bytestring' if t == 0x40 else 'read_textstring', 0, 8, -1, 0, -1, 0, 0, 0, '%02x%02x61%02x62ff' % (t | 31, t | 1, t | 1)]
+    if (h0 & 0x1f) == 31:
+        return [op, 0, 8, 0, h0, 3 if (h0 & 0xe0) == 0xa0 else 2, 0xff, 0, 0]
+    return [op, 0, 8, 0, h0, -1, 0, 0, 0]
+
+
+FAMILIES['dec2.'] = {'name': 'dec', 'src': 'replay_dec.cpp', 'argv': dec2_argv}
